@@ -4,16 +4,20 @@ import vlib
 
 PROOFS = ["C04/ProofsList.vo", "C04/ProofsPerm.vo", "C04/ProofsDet.vo", "C04/ProofsBS.vo", "C04/ProofsGJ.vo",
           "C04/ProofsGJ2.vo", "C04/ProofsGJ3.vo", "C04/ProofsGJ4.vo", "C04/ProofsSing.vo", "C04/ProofsInv.vo",
-          "C04/ProofsDet2.vo", "C04/ProofsEx.vo"]
+          "C04/ProofsDet2.vo", "C04/ProofsEx.vo", "C04/ProofsNaN.vo", "C04/ProofsNaN2.vo", "C04/ProofsDet3.vo"]
 TARGETS = ["Base/Num.vo", "Base/Corr.vo", "C04/Model.vo", "C04/Corr.vo", "C04/Spec.vo", "C04/SpecTest.vo"] + \
           [p for p in PROOFS if os.path.exists(os.path.join(vlib.COQ, p[:-1]))] + ["C04/Props.vo"]
 PROPS = ["C04/Props.v"]
-PARTIAL = ("Theorems are over an arbitrary field (exact arithmetic) about the hand-written model coq/C04/Model.v; the step "
-           "from exact to binary64 arithmetic is not proved: it is bounded per sampled case by the bit-exact replay of the "
-           "model at Coq's primitive floats against the Go results and by exact rational residual goals on Go's output. "
-           "Float32/Real32 element types are exercised by the hunt oracle only; LogScale (math.Log) is checked by the hunt "
-           "oracle against the logarithm of the exact determinant, not replayed in Coq. Statements named *_partial in "
-           "Props.v say what is missing.")
+PARTIAL = ("Theorems are over an arbitrary field (exact arithmetic) about the hand-written model coq/C04/Model.v (full Gauss-Jordan "
+           "contract incl. sub-matrix selection, upper-triangular variant, the three matrixInverse modes, singular structure) and "
+           "over the NaN-aware carrier option K (None = any non-finite value) for the singular exits; the step from exact to "
+           "binary64 arithmetic is not proved: it is bounded per sampled case by the bit-exact replay of the model at Coq's "
+           "primitive floats against the Go results and by exact rational residual goals on Go's output. The PositiveDefinite "
+           "inverse theorem takes the Cholesky factor's properties (lower triangular, L*L^T = A) as hypotheses and a leading-block "
+           "selection (other selections: known finding F-C04-PD-SUBMATRIX). determinantNaive is identified with the determinant through its characterisation (multilinear in every row, alternating for "
+           "adjacent rows, det I = 1), not through det(A*B) or a permutation-sum formula. Float32/Real32 element types are exercised "
+           "by the hunt oracle only; LogScale (math.Log) is checked by the hunt oracle against the logarithm of the exact "
+           "determinant, not replayed in Coq.")
 CORPUS = os.path.join(vlib.ROOT, "corpus/C04/corpus.jsonl")
 
 
